@@ -17,7 +17,11 @@ pub enum Case {
     Hmac { seed: u64, klen: usize, dlen: usize },
     Sha { seed: u64, len: usize },
     Nonce { seed: u64, counter: u64 },
+    /// A history over a table of PrivateKey objects, compared step by step with the scalars a model holds.
+    KeyObjects { ops: Vec<KOp> },
 }
+#[derive(Clone, Debug, Serialize, Deserialize)]
+pub enum KOp { New(u64), NewSpecial(usize), Generate, ToPublic(u16), Clone(u16), Zeroize(u16), CloneFrom(u16, u16), Dh(u16, u16), Forget(u16) }
 #[derive(Clone, Debug, Serialize, Deserialize)]
 pub enum UCoord { Random(u64), RandomHighBit(u64), LowOrder(usize), NonCanonical(u8), Base, /// i-th entry of the well-known 12-entry list (0, 1, x1, x2, p-1, p, p+1, p+x1, p+x2, 2p-1, 2p, 2p+1 as 256-bit strings)
     Published(usize) }
@@ -109,6 +113,31 @@ pub fn check(c: &Case) -> CheckResult {
             ensure!(kc::sha256(&d)[..] == kspec::sha256(&d)[..], "sha256 differs from FIPS 180-4 for {} bytes", len);
             ok(![0, 3, 56].contains(len), "sha256")
         }
+        Case::KeyObjects { ops } => {
+            use zeroize::Zeroize;
+            let mut objs: Vec<(kc::PrivateKey, [u8; 32])> = Vec::new(); let mut kinds = std::collections::BTreeSet::new(); let mut derived_then_changed = false; let mut derived: Vec<bool> = Vec::new();
+            for (step, op) in ops.iter().enumerate() {
+                let n = objs.len(); let sel = |x: u16| crate::core::pick(x, n.max(1));
+                match op {
+                    KOp::New(s) => { let k = gen::key32(*s, "ko"); objs.push((kc::PrivateKey::try_from(&k[..]).unwrap(), k)); derived.push(false); }
+                    KOp::NewSpecial(i) => { let k = special_scalar(*i); objs.push((kc::PrivateKey::try_from(&k[..]).unwrap(), k)); derived.push(false); }
+                    KOp::Generate => { let o = kc::PrivateKey::generate(); let k: [u8; 32] = o.as_bytes().try_into().map_err(|_| "generated key is not 32 bytes".to_string())?; objs.push((o, k)); derived.push(false); }
+                    KOp::Forget(x) => if n > 0 { let i = sel(*x); objs.remove(i); derived.remove(i); },
+                    KOp::Clone(x) => if n > 0 { let i = sel(*x); let c = objs[i].0.clone(); let m = objs[i].1; objs.push((c, m)); derived.push(derived[i]); kinds.insert("clone"); },
+                    KOp::Zeroize(x) => if n > 0 { let i = sel(*x); objs[i].0.zeroize(); objs[i].1 = [0u8; 32]; if derived[i] { derived_then_changed = true; } kinds.insert("zeroize"); },
+                    KOp::CloneFrom(x, y) => if n > 1 { let (i, j) = (sel(*x), sel(*y)); if i != j { let src = objs[j].0.clone(); objs[i].0.clone_from(&src); objs[i].1 = objs[j].1; if derived[i] { derived_then_changed = true; } kinds.insert("clone_from"); } },
+                    KOp::ToPublic(x) => if n > 0 { let i = sel(*x); let want = kspec::x25519_base(&objs[i].1);
+                        let got = objs[i].0.to_public().map(|p| p.as_bytes().to_vec()).map_err(|_| format!("step {}: to_public failed", step))?;
+                        ensure!(got[..] == want[..], "step {} of {:?}: to_public() of a key object holding scalar {} returned {} - not the base-point multiple {}", step, ops, kspec::hex(&objs[i].1), kspec::hex(&got), kspec::hex(&want));
+                        derived[i] = true; kinds.insert("to_public"); },
+                    KOp::Dh(x, y) => if n > 0 { let (i, j) = (sel(*x), sel(*y)); let pj = kspec::x25519_base(&objs[j].1); let want = kspec::x25519(&objs[i].1, &pj);
+                        match objs[i].0.diffie_hellman(&kc::PublicKey::try_from(&pj[..]).unwrap()) { Ok(v) => ensure!(v[..] == want[..] && want != [0u8; 32], "step {}: diffie_hellman through key objects differs from RFC 7748", step), Err(_) => ensure!(want == [0u8; 32], "step {}: diffie_hellman failed although the RFC 7748 result is non-zero", step) }
+                        kinds.insert("dh"); },
+                }
+                for (o, m) in &objs { ensure!(o.as_bytes() == &m[..], "step {} of {:?}: a key object's bytes differ from the scalar it was given", step, ops); }
+            }
+            ok(derived_then_changed || kinds.len() >= 3, format!("key-objects/{}", if derived_then_changed { "derived-then-changed" } else { "plain" }))
+        }
         Case::Nonce { seed, counter } => {
             let key = gen::key32(*seed, "n"); let m = gen::bytes_from(*seed, (*seed % 70) as usize); let ad = gen::bytes_from(*seed ^ 9, (*seed % 33) as usize);
             let got = kc::verif_chapoly_encrypt_noise(&key, *counter, &ad, &m);
@@ -122,7 +151,7 @@ pub fn check(c: &Case) -> CheckResult {
 }
 
 pub fn run(ctx: &Ctx) {
-    set_rule("C19", "AEAD: every (|m|, |aad|) in 0..=130 x 0..=40 and random sizes to 70000 against RFC 8439 (kspec), open(seal)=id, and for small messages every single-bit change of ciphertext/tag/aad plus changed key/nonce/aad length must be rejected; X25519: random scalars (clamped bits deliberately set/cleared) x {random, bit-255-set, all 14 small-order spellings, non-canonical, base} against RFC 7748, error <=> all-zero, DH symmetry, public key = k*9; HKDF (lengths 0..200, out 1..8160), HMAC (key 0..200 incl. 63/64/65), SHA-256 (every length 0..300, random to 100000); Noise nonce layout through the hook. Non-trivial = input shape not among the repository's own vectors; distinct by hash of the case / enumeration index");
+    set_rule("C19", "AEAD: every (|m|, |aad|) in 0..=130 x 0..=40 and random sizes to 70000 against RFC 8439 (kspec), open(seal)=id, and for small messages every single-bit change of ciphertext/tag/aad plus changed key/nonce/aad length must be rejected; X25519: random scalars (clamped bits deliberately set/cleared) x {random, bit-255-set, all 14 small-order spellings, non-canonical, base} against RFC 7748, error <=> all-zero, DH symmetry, public key = k*9; HKDF (lengths 0..200, out 1..8160), HMAC (key 0..200 incl. 63/64/65), SHA-256 (every length 0..300, random to 100000); Noise nonce layout through the hook; histories of 1..14 operations over a table of PrivateKey objects (new from random / extreme scalars, generate, to_public, clone, clone_from, zeroize, diffie_hellman, forget) compared after every step with a model that holds each object's scalar: to_public is always the base-point multiple of the scalar the object holds NOW. Non-trivial = input shape not among the repository's own vectors; distinct by hash of the case / enumeration index");
     ctx.assume("kspec is the RFC reference (self-tested against the RFC vectors and audited against OpenSSL by tools/oracle_audit.py)");
     let sweep = if ctx.quick() { 24 } else { 64 };
     ctx.sse("aead_grid", "every (|m|,|aad|) in 0..=130 x 0..=40; tamper sweep for |m|<=bound", 131 * 41, |i| Case::Aead { seed: i as u64 * 7919 + ctx.seed, mlen: i / 41, alen: i % 41, tamper: i / 41 <= sweep && (i % 41) % 5 == 0 }, check);
@@ -132,6 +161,7 @@ pub fn run(ctx: &Ctx) {
     ctx.sse("x25519_special_points", "14 small-order spellings + 19 non-canonical + base x 8 clamp-noise patterns", (nlow + 20) * 8, |i| { let j = i / 8; Case::X25519 { k: ctx.seed.wrapping_add(i as u64), u: if j < nlow { UCoord::LowOrder(j) } else if j < nlow + 19 { UCoord::NonCanonical((j - nlow) as u8) } else { UCoord::Base }, clamp_noise: (i % 8) as u8 } }, check);
     ctx.sse("x25519_published_list", "the 12 published encodings x 8 clamp-noise patterns: error exactly when RFC 7748 (bit 255 masked) gives zero", 12 * 8, |i| Case::X25519 { k: ctx.seed.wrapping_add(1000 + i as u64), u: UCoord::Published(i / 8), clamp_noise: (i % 8) as u8 }, check);
     ctx.sse("x25519_special_scalars", "40 extreme scalars (all-zero, all-ones, only clamped bits, single bits) x {base, random, high-bit u}: raw functions and key objects", 40 * 3, |i| Case::SpecialScalar { i: i / 3, u: match i % 3 { 0 => UCoord::Base, 1 => UCoord::Random(i as u64), _ => UCoord::RandomHighBit(i as u64) } }, check);
+    ctx.pbt("key_object_histories", ctx.n(20_000, 300_000), || proptest::collection::vec(prop_oneof![3 => any::<u64>().prop_map(KOp::New), 1 => (0usize..40).prop_map(KOp::NewSpecial), 1 => Just(KOp::Generate), 4 => any::<u16>().prop_map(KOp::ToPublic), 2 => any::<u16>().prop_map(KOp::Clone), 2 => any::<u16>().prop_map(KOp::Zeroize), 2 => (any::<u16>(), any::<u16>()).prop_map(|(a, b)| KOp::CloneFrom(a, b)), 2 => (any::<u16>(), any::<u16>()).prop_map(|(a, b)| KOp::Dh(a, b)), 1 => any::<u16>().prop_map(KOp::Forget)], 1..14).prop_map(|ops| Case::KeyObjects { ops }), check);
     ctx.pbt("pbt_primitives", ctx.n(400_000, 4_000_000), || prop_oneof![
         3 => (any::<u64>(), prop_oneof![4 => 0usize..400, 1 => 0usize..70_000], 0usize..80).prop_map(|(seed, mlen, alen)| Case::Aead { seed, mlen, alen, tamper: false }),
         1 => (any::<u64>(), 0usize..40, 0usize..24).prop_map(|(seed, mlen, alen)| Case::Aead { seed, mlen, alen, tamper: true }),
